@@ -1,3 +1,4 @@
+import re
 from collections import namedtuple
 
 from ply import yacc, lex
@@ -174,7 +175,7 @@ class Parser(object):
                      | ID
         """
 
-        p[0] = p[1]
+        p[0] = p[1].rstrip(" \t")
 
     def p_plain_string_with_number(self, p):
         """
@@ -184,7 +185,12 @@ class Parser(object):
                      | ID plain_string
         """
 
-        p[0] = str(p[1]) + p[2]
+        # Keep the text as it was written (numeric fragments unformatted, blanks between words preserved) by slicing
+        # the source from the start of this token to the start of the rest of the string.
+        written = self.lexer.lexdata[p.lexpos(1) : p.lexpos(2)]
+        if "\n" in written or "\r" in written:
+            written = re.sub(r"[ \t]*(\#[^\r\n]*)?[\r\n]+[ \t]*", " ", written)
+        p[0] = written + p[2]
 
     def p_permissive_plain_string(self, p):
         """
